@@ -135,7 +135,7 @@ CHECKS = {
         "assumptions": ["testing/synctest fake clock", "rapid v1.3.0; go1.26.8"],
         "jobs": [{"pkg": "c20time", "run": "TestSleepContext|TestJitterTicker", "kinds": ["sleep", "ticker"], "scale_thorough": 10, "shards_thorough": 16},
                  {"pkg": "c20time", "race": True, "run": "TestTickerRace", "kinds": ["ticker-race"], "scale_thorough": 4, "shards_thorough": 4},
-                 {"pkg": "c20old", "kinds": ["sleep-old-timers"], "scale_thorough": 4, "shards_thorough": 4}],
+                 {"pkg": "c20old", "kinds": ["sleep-old-timers", "ticker-starved"], "scale_thorough": 4, "shards_thorough": 4}],
     },
     "C16": {
         "level": "exploration",
@@ -234,7 +234,7 @@ CHECKS = {
         "rule": ("kinds group (timelines: 1-5 registrations, 0-12 trigger events incl. concurrent bursts, one stop incl. parent cancel/deadline), stop-storm (goroutines keep calling Do while the group is stopped, 5-30 rounds per case), "
                  "trigger-first-call (racing first calls of a trigger function, then triggers during runs), trigger-storm (a trigger 0-256 busy iterations after a run has finished, 1000-5000 rounds per case, decided at quiescence), pot-old-timers (PeriodicOrTrigger under asynctimerchan=1 on the real clock). group plans: non-trivial = a trigger call landed while its function was running, or a registration raced with the stop; distinct = distinct plan JSON; R=3/10"),
         "assumptions": ["testing/synctest", "rapid v1.3.0; go1.26.8"],
-        "jobs": [{"pkg": "c17old", "kinds": ["pot-old-timers"], "scale_thorough": 4, "shards_thorough": 4},
+        "jobs": [{"pkg": "c17old", "kinds": ["pot-old-timers", "pot-trigger-real"], "scale_thorough": 4, "shards_thorough": 4},
                  {"pkg": "c17group", "kinds": ["group", "stop-storm", "trigger-first-call", "trigger-storm"], "scale_thorough": 10, "shards_thorough": 16, "replay_reps": 30},
                  {"pkg": "c17group", "race": True, "kinds": ["group", "stop-storm", "trigger-first-call", "trigger-storm"], "scale_quick": 0.15, "scale_thorough": 2, "shards_thorough": 4, "replay_reps": 20}],
     },
